@@ -181,7 +181,7 @@ PARSE_RANGE_HEADER = Spec(
     qualname="parse_range_header",
     name="parse_range_header",
     params=[("value", "Option Str"), ("make_inclusive", "Bool")],
-    locals={"ranges": RANGES_TY},
+    locals={"#1": RANGES_TY},  # (locals by position: #1 = ranges)
     result=f"Option (Str × {RANGES_TY})",
     raises=True,  # `units, rng = value.split("=", 1)` and `ds.Range(...)` can raise: proved impossible
     calls={
@@ -316,11 +316,12 @@ _ETAGS_METHODS = {
 _G3 = Tup(Opt(STR), Opt(STR), Opt(STR))
 _M3 = Tup(_G3, INT)
 PARSE_ETAGS = Spec(
+    canon_loop_order=True,
     module="http.py",
     qualname="parse_etags",
     name="parse_etags",
     params=[("value", "Option Str")],
-    locals={"strong": f"List ({_OS})", "weak": f"List ({_OS})"},
+    locals={"#1": f"List ({_OS})", "#2": f"List ({_OS})"},  # (locals by position: #1 = strong, #2 = weak)
     result="ETags",
     raises=True,  # only the fuel marker of the while loop
     # `_etag_re.match(value, pos)`: C06's hand model of the regex (`Http.etagMatch`, validated by the
@@ -462,15 +463,25 @@ def gen_host():
 # --- the debugger's PIN functions (debug/__init__.py)
 
 
-def _src_matcher(text, nargs=0):
-    """matcher for an expression whose source text (ast.unparse) is exactly `text` -> []"""
+def _src_matcher(text, nargs=0, args=()):
+    """matcher for an expression whose source text (ast.unparse) is exactly `text` -> []; the text
+    may contain metavariables `$x` (any name, see py2lean.template_match): `args` lists the
+    metavariables whose names are handed to the Lean function as arguments, in this order"""
     import ast
 
     def m(n):
-        try:
-            return [] if ast.unparse(n) == text else None
-        except Exception:  # noqa: BLE001
+        if not isinstance(n, ast.expr):
             return None
+        b = py2lean.template_match(text, n)
+        if b is None:
+            return None
+        out = []
+        for a in args:
+            nm = ast.parse(a[1:], mode="eval").body if a.startswith("=") else ast.Name(id=b[a], ctx=ast.Load())
+            ast.copy_location(nm, n)
+            ast.fix_missing_locations(nm)
+            out.append(nm)
+        return out
 
     return m
 
@@ -515,7 +526,7 @@ FAIL_PIN_AUTH = Spec(
     state=["_failed_pin_auth.value", "slept", "slept_long"],
     result="Unit",
     with_noop=["self._failed_pin_auth.get_lock()"],
-    effects={"time.sleep(5.0 if count > 5 else 0.5)": [("self.slept", "True"), ("self.slept_long", "count > 5")]},
+    effects={"time.sleep(5.0 if $c > 5 else 0.5)": [("self.slept", "True"), ("self.slept_long", "$c > 5")]},
 )
 
 _PIN_KEYS = ("self._failed_pin_auth.value", "self.slept", "self.slept_long")
@@ -587,19 +598,19 @@ DBG_CALL = Spec(
     patterns=[
         (_src_matcher("Request(environ)"), Fn("()", [], py2lean.NONE)),
         (_src_matcher("self.debug_application"), Fn("0", [], INT)),
-        (_src_matcher("request.args.get('__debugger__')"), Fn("arg_debugger", [], Opt(STR))),
-        (_src_matcher("request.args.get('cmd')"), Fn("arg_cmd", [], Opt(STR))),
-        (_src_matcher("request.args.get('f')"), Fn("arg_f", [], Opt(STR))),
-        (_src_matcher("request.args.get('s')"), Fn("arg_s", [], Opt(STR))),
+        (_src_matcher("$r.args.get('__debugger__')"), Fn("arg_debugger", [], Opt(STR))),
+        (_src_matcher("$r.args.get('cmd')"), Fn("arg_cmd", [], Opt(STR))),
+        (_src_matcher("$r.args.get('f')"), Fn("arg_f", [], Opt(STR))),
+        (_src_matcher("$r.args.get('s')"), Fn("arg_s", [], Opt(STR))),
         # the frame object: only `is not None` is asked
-        (_src_matcher("self.frames.get(request.args.get('frm', type=int))"), Fn("(if frame_known then some () else none)", [], Opt(py2lean.OBJ))),
-        (_src_matcher("self.get_resource(request, arg)"), Fn("1", [], INT)),
-        (_src_matcher("self.pin_auth(request)"), Fn("2", [], INT)),
-        (_src_matcher("self.log_pin_request(request)"), Fn("3", [], INT)),
-        (_src_matcher("self.execute_command(request, cmd, frame)"), Fn("4", [], INT)),
-        (_src_matcher("self.display_console(request)"), Fn("5", [], INT)),
+        (_src_matcher("self.frames.get($r.args.get('frm', type=int))"), Fn("(if frame_known then some () else none)", [], Opt(py2lean.OBJ))),
+        (_src_matcher("self.get_resource($r, $a)"), Fn("1", [], INT)),
+        (_src_matcher("self.pin_auth($r)"), Fn("2", [], INT)),
+        (_src_matcher("self.log_pin_request($r)"), Fn("3", [], INT)),
+        (_src_matcher("self.execute_command($r, $c, $f)"), Fn("4", [], INT)),
+        (_src_matcher("self.display_console($r)"), Fn("5", [], INT)),
         (_src_matcher("self.check_pin_trust(environ)"), Fn("pin_trust", [], Opt(BOOL))),
-        (_src_matcher("request.path"), Fn("request_path", [], STR)),
+        (_src_matcher("$r.path"), Fn("request_path", [], STR)),
         (_src_matcher("response(environ, start_response)"), Fn("response", [], INT)),
     ],
 )
@@ -701,9 +712,9 @@ SHARED_DATA_CALL = Spec(
     ],
     calls={"self.is_allowed": Fn("is_allowed", [STR], BOOL)},
     callables={"Ldr": Fn("call_loader", [_LAM, Opt(STR)], Tup(Opt(STR), Opt(_PHI)))},
-    locals={"file_loader": "Option Fld"},
-    maybe_unbound={"real_filename": "Option Str"},
-    stop_at=("guessed_type = mimetypes.guess_type(real_filename)", "(real_filename, file_loader)"),
+    locals={"#2": "Option Fld"},  # (locals by position: #2 = file_loader)
+    maybe_unbound={"#5": "Option Str"},  # #5 = real_filename
+    stop_at=("$g = mimetypes.guess_type($r)", "($r, #2)"),  # #2 = file_loader
 )
 
 
@@ -772,7 +783,7 @@ LS_READINTO = Spec(
     result="Int",
     raises=True,
     static={"hasattr(self._stream, 'readinto')": None},
-    locals={"out_size": "Option Int"},
+    locals={"#3": "Option Int"},  # (locals by position: #3 = out_size)
     calls={
         "self.on_exhausted": Fn("ls_on_exhausted", [], py2lean.NONE, raises=("RequestEntityTooLarge",), extra=("self__limit_is_max",)),
         "self._stream.read": Fn("underRead", [INT], py2lean.BYTES, raises=("OSError",), effect_key="self.u", error_keeps_state=True),
@@ -786,8 +797,8 @@ LS_READINTO = Spec(
     # `out_size = self._stream.readinto(buf)`: the underlying call answers the count and the new
     # content of the buffer it was given (pinned by the exact source text of the two statements)
     effects={
-        "out_size = self._stream.readinto(b)": [("r_", "under_readinto(b)"), ("out_size", "r_[0]"), ("b", "r_[1]")],
-        "out_size = self._stream.readinto(temp_b)": [("r_", "under_readinto(temp_b)"), ("out_size", "r_[0]"), ("temp_b", "r_[1]")],
+        "$o = self._stream.readinto(b)": [("r_", "under_readinto(b)"), ("$o", "r_[0]"), ("b", "r_[1]")],
+        "$o = self._stream.readinto($t)": [("r_", "under_readinto($t)"), ("$o", "r_[0]"), ("$t", "r_[1]")],
     },
 )
 LS_READINTO.calls["under_readinto"] = Fn("underReadinto", [py2lean.BYTES], Tup(Opt(INT), py2lean.BYTES), raises=("OSError",), effect_key="self.u", error_keeps_state=True)
@@ -859,7 +870,7 @@ def _limited_stream_ctor(n):
     """`LimitedStream(stream, N)` / `LimitedStream(stream, N, is_max=B)` -> [N, B]"""
     import ast
 
-    if isinstance(n, ast.Call) and isinstance(n.func, ast.Name) and n.func.id == "LimitedStream" and len(n.args) == 2 and isinstance(n.args[0], ast.Name) and n.args[0].id == "stream":
+    if isinstance(n, ast.Call) and isinstance(n.func, ast.Name) and n.func.id == "LimitedStream" and len(n.args) == 2 and isinstance(n.args[0], ast.Name):
         if not n.keywords:
             f = ast.Constant(value=False)
             ast.copy_location(f, n)
@@ -954,7 +965,7 @@ RANGE_TO_HEADER = Spec(
     qualname="Range.to_header",
     name="range_to_header",
     params=[("self.units", "Str"), ("self.ranges", RANGES_TY)],
-    locals={"ranges": "List Str"},
+    locals={"#1": "List Str"},  # (locals by position: #1 = ranges)
     result="Str",
 )
 
@@ -964,7 +975,7 @@ PARSE_LIST_HEADER = Spec(
     qualname="parse_list_header",
     name="parse_list_header",
     params=[("value", "Str")],
-    locals={"result": "List Str"},
+    locals={"#1": "List Str"},  # (locals by position: #1 = result)
     result="List Str",
     raises=True,  # item[0] / item[-1] raise IndexError on "": proved impossible (len guard)
     # `urllib.request.parse_http_list` (imported as `_parse_list_header`) is C06's hand model
@@ -983,7 +994,7 @@ DUMP_HEADER_LIST = Spec(
     name="dump_header_list",
     # the non-dict branch: an iterable of `str` items
     params=[("iterable", "List Str")],
-    locals={"items": "List Str"},
+    locals={"#1": "List Str"},  # (locals by position: #1 = items)
     result="Str",
     raises=True,
     calls={"quote_header_value": _QHV},
@@ -995,7 +1006,7 @@ DUMP_HEADER_DICT = Spec(
     name="dump_header_dict",
     # the dict branch: values are `str` or None (`t.Any` restricted as in the model)
     params=[("iterable", "Dict Str (Option Str)")],
-    locals={"items": "List Str"},
+    locals={"#1": "List Str"},  # (locals by position: #1 = items)
     result="Str",
     raises=True,  # key[-1] raises IndexError for an empty key
     calls={"quote_header_value": _QHV},
@@ -1006,12 +1017,13 @@ DUMP_OPTIONS_HEADER = Spec(
     qualname="dump_options_header",
     name="dump_options_header",
     params=[("header", "Option Str"), ("options", "Dict Str (Option Str)")],
-    locals={"segments": "List Str"},
+    locals={"#1": "List Str"},  # (locals by position: #1 = segments)
     result="Str",
     raises=True,  # key[-1] raises IndexError for an empty key
     calls={"quote_header_value": _QHV},
 )
 QUOTE_ETAG = Spec(
+    canon_find=True,
     module="http.py",
     qualname="quote_etag",
     name="quote_etag",
@@ -1160,7 +1172,8 @@ CONTENT_RANGE_UNSET = Spec(
     state=["_units", "_start", "_stop", "_length", "notified"],
     result="Unit",
     raises=True,
-    patterns=[(_cr_unset_call, Fn("content_range_set", [_OINT, _OINT, _OINT, _OSTR], py2lean.NONE, raises=("AssertionError",), state=_CR_KEYS))],
+    # (the arguments are bound to the parameters of the current `set` the way Python binds them)
+    patterns=[(sig_matcher("self.set", "datastructures/range.py", "ContentRange.set"), Fn("content_range_set", [_OINT, _OINT, _OINT, _OSTR], py2lean.NONE, raises=("AssertionError",), state=_CR_KEYS))],
     **_CR,
 )
 CONTENT_RANGE_TO_HEADER = Spec(
@@ -1198,7 +1211,7 @@ PARSE_CSP_HEADER = Spec(
     # `cls` (default ContentSecurityPolicy, a dict subclass built from the item list) and `on_update`
     # are only handed on: the result is the item list the constructor receives
     params=[("value", "Option Str"), ("on_update", "Unit"), ("cls", "Unit")],
-    locals={"items": "List (Str × Str)"},
+    locals={"#1": "List (Str × Str)"},  # (locals by position: #1 = items)
     result="List (Str × Str)",
     raises=True,
     static={"cls is None": False},
@@ -1229,7 +1242,7 @@ PARSE_DICT_HEADER = Spec(
     qualname="parse_dict_header",
     name="parse_dict_header",
     params=[("value", "Str")],
-    locals={"result": "Dict Str (Option Str)"},
+    locals={"#1": "Dict Str (Option Str)"},  # (locals by position: #1 = result)
     result="Dict Str (Option Str)",
     raises=True,
     calls={
@@ -1343,7 +1356,7 @@ PARSE_OPTIONS_HEADER = Spec(
     qualname="parse_options_header",
     name="parse_options_header",
     params=[("value", "Option Str")],
-    locals={"parts": "List (Str × Str)", "options": "Dict Str Str", "encoding": "Option Str", "continued_encoding": "Option Str"},
+    locals={"#3": "List (Str × Str)", "#9": "Dict Str Str", "#10": "Option Str", "#11": "Option Str"},  # (locals by position: #3 = parts, #9 = options, #10 = encoding, #11 = continued_encoding)
     result="Str × Dict Str Str",
     raises=True,
     retype=["m"],
@@ -1389,7 +1402,7 @@ PARSE_ACCEPT_HEADER = Spec(
     orders={"κ": "qle"},
     abs_lits={("κ", 0): "qzero", ("κ", 1): "qone"},
     params=[("value", "Option Str"), ("cls", "Unit")],
-    locals={"result": "List (Str × κ)", "q": "κ"},
+    locals={"#1": "List (Str × κ)", "#5": "κ"},  # (locals by position: #1 = result, #5 = q)
     result="Option (List (Str × κ))",
     raises=True,
     needs_fuel=True,
@@ -1452,7 +1465,7 @@ CLEAN_STATUS_STR = Spec(
     raises=True,
     # `int(code_str)`: the C16 views model's `pyInt` answers `none` for ValueError
     calls={"int": Fn("intOfStr", [STR], INT, raises=("ValueError",))},
-    patterns=[(_src_matcher("HTTP_STATUS_CODES[status_code].upper()"), Fn("statusPhraseUpper status_phrase status_code", [], STR, raises=("KeyError",)))],
+    patterns=[(_src_matcher("HTTP_STATUS_CODES[$c].upper()", args=["c"]), Fn("statusPhraseUpper status_phrase", [INT], STR, raises=("KeyError",)))],
     doc="`Response._clean_status(value)` of src/werkzeug/sansio/response.py for a `str` value, translated by tools/py2lean.py",
 )
 CLEAN_STATUS_INT = Spec(
@@ -1466,7 +1479,7 @@ CLEAN_STATUS_INT = Spec(
     # isinstance(value, (int, HTTPStatus)) for an int; `int(value)` is the identity
     static={"isinstance(value, (int, HTTPStatus))": True},
     calls={"int": Fn("id", [INT], INT)},
-    patterns=[(_src_matcher("HTTP_STATUS_CODES[status_code].upper()"), Fn("statusPhraseUpper status_phrase status_code", [], STR, raises=("KeyError",)))],
+    patterns=[(_src_matcher("HTTP_STATUS_CODES[$c].upper()", args=["c"]), Fn("statusPhraseUpper status_phrase", [INT], STR, raises=("KeyError",)))],
     doc="`Response._clean_status(value)` of src/werkzeug/sansio/response.py for an `int` value, translated by tools/py2lean.py",
 )
 CLEAN_STATUS_STR.static = {"isinstance(value, (int, HTTPStatus))": False}
@@ -1485,7 +1498,7 @@ GET_APP_ITER = Spec(
         (_src_matcher("()"), Fn("0", [], INT)),
         (_src_matcher("self.response"), Fn("1", [], INT)),
         (_src_matcher("self.iter_encoded()"), Fn("2", [], INT)),
-        (_src_matcher("ClosingIterator(iterable, self.close)"), Fn("iterable", [], INT)),
+        (_src_matcher("ClosingIterator($i, self.close)", args=["i"]), Fn("id", [INT], INT)),
     ],
 )
 
@@ -1522,11 +1535,11 @@ _PRR_PATTERNS = [
     (_src_matcher("environ.get('HTTP_RANGE')"), Fn("http_range", [], Opt(STR))),
 ]
 _PRR_EFFECTS = {
-    "self.headers['Content-Length'] = str(content_length)": [("self.out_content_length", "content_length")],
+    "self.headers['Content-Length'] = str($c)": [("self.out_content_length", "$c")],
     "self.headers['Accept-Ranges'] = accept_ranges": [("self.out_accept_ranges", "accept_ranges")],
-    "self.content_range = content_range_header": [("self.out_content_range", "content_range_header")],
+    "self.content_range = $h": [("self.out_content_range", "$h")],
     "self.status_code = 206": [("self.out_status", "206")],
-    "self._wrap_range_response(range_tuple[0], content_length)": [("self.out_wrap", "(range_tuple[0], content_length)")],
+    "self._wrap_range_response($r[0], $c)": [("self.out_wrap", "($r[0], $c)")],
 }
 _PRR_STATE = ["out_content_length", "out_accept_ranges", "out_content_range", "out_status", "out_wrap"]
 _PRR_PARAMS = [("self.out_content_length", "Option Int"), ("self.out_accept_ranges", "Option Str"), ("self.out_content_range", "Option Str"), ("self.out_status", "Option Int"), ("self.out_wrap", "Option (Int × Int)")]
@@ -1621,10 +1634,10 @@ MAKE_CONDITIONAL = Spec(
             raises=("RequestedRangeNotSatisfiable", "ValueError", "IndexError"), state=tuple("self." + k for k in _PRR_STATE),
         )),
         (_src_matcher("_get_environ(request_or_environ)"), Fn("()", [], py2lean.NONE)),
-        (_src_matcher("environ['REQUEST_METHOD']"), Fn("request_method", [], STR)),
+        (_src_matcher("$e['REQUEST_METHOD']"), Fn("request_method", [], STR)),
         (_src_matcher("'date' not in self.headers"), Fn("(!has_date)", [], BOOL)),
-        (_src_matcher("is_resource_modified(environ, self.headers.get('etag'), None, self.headers.get('last-modified'))"), Fn("modified", [], BOOL)),
-        (_src_matcher("parse_etags(environ.get('HTTP_IF_MATCH'))"), Fn("if_match_given", [], BOOL)),
+        (_src_matcher("is_resource_modified($e, self.headers.get('etag'), None, self.headers.get('last-modified'))"), Fn("modified", [], BOOL)),
+        (_src_matcher("parse_etags($e.get('HTTP_IF_MATCH'))"), Fn("if_match_given", [], BOOL)),
         (_src_matcher("self.automatically_set_content_length"), Fn("auto_content_length", [], BOOL)),
         # a Content-Length written by `_process_range_request` counts
         (_content_length_absent, Fn("contentLengthAbsent has_content_length", [Opt(INT)], BOOL)),
@@ -1635,7 +1648,7 @@ MAKE_CONDITIONAL = Spec(
         "self.headers['Date'] = http_date()": [("self.out_date", "True")],
         "self.status_code = 412": [("self.out_status", "412")],
         "self.status_code = 304": [("self.out_status", "304")],
-        "self.headers['Content-Length'] = str(length)": [("self.out_content_length", "length")],
+        "self.headers['Content-Length'] = str($l)": [("self.out_content_length", "$l")],
     },
     doc="`Response.make_conditional` of src/werkzeug/wrappers/response.py for `accept_ranges: bool`, translated by tools/py2lean.py",
 )
@@ -1768,7 +1781,7 @@ SANSIO_PARSE_COOKIE = Spec(
     name="sansio_parse_cookie",
     # `cls(out)` / `cls()`: the result is the pair list handed to the MultiDict class
     params=[("cookie", "Option Str"), ("cls", "Unit")],
-    locals={"out": "List (Str × Str)"},
+    locals={"#1": "List (Str × Str)"},  # (locals by position: #1 = out)
     result="List (Str × Str)",
     raises=True,  # cv[0] / cv[-1] raise IndexError on "": proved impossible (len guard)
     static={"cls is None": False},
@@ -2129,7 +2142,7 @@ PARSE_DATA = Spec(
         "bytes": Fn("id", [py2lean.BYTES], py2lean.BYTES),
     },
     patterns=[
-        (_src_matcher("match.group(1).startswith(b'--')"), Fn("mpClosing match_", [], BOOL)),
+        (_src_matcher("$m.group(1).startswith(b'--')", args=["m"]), Fn("mpClosing", [_MPM], BOOL)),
     ],
     methods=_MPM_METHODS,
 )
@@ -2145,16 +2158,19 @@ PARSE_HEADERS = Spec(
     params=[("data", "Bytes")],
     result="List (Str × Str)",
     raises=True,
-    locals={"headers": "List (Str × Str)"},
+    locals={"#1": "List (Str × Str)"},  # (locals by position: #1 = headers)
     # `HEADER_CONTINUATION_RE.sub(b" ", data)`, `bytes.splitlines()`, `bytes.strip()`: the hand-written
     # kernels of Model/Multipart.lean (stream regex-kernels); `bytes.decode()` is strict UTF-8
     calls={"Headers": Fn("id", [_HDRS], _HDRS)},
     patterns=[
         (_src_matcher("HEADER_CONTINUATION_RE.sub(b' ', data)"), Fn("Wz.Multipart.foldContinuations data", [], py2lean.BYTES)),
         (_src_matcher("data.splitlines()"), Fn("Wz.Multipart.splitLines data", [], py2lean.Lst(py2lean.BYTES))),
-        (_src_matcher("line.strip()"), Fn("Wz.Multipart.stripBytes line", [], py2lean.BYTES)),
-        (_src_matcher("line.decode()"), Fn("decodeUtf8Strict line", [], STR, raises=("UnicodeDecodeError",))),
     ],
+    # `bytes.strip()` / `bytes.decode()` (by the receiver's type, whatever the local is called)
+    methods={
+        ("Bytes", "strip"): Fn("Wz.Multipart.stripBytes", [py2lean.BYTES], py2lean.BYTES),
+        ("Bytes", "decode"): Fn("decodeUtf8Strict", [py2lean.BYTES], STR, raises=("UnicodeDecodeError",)),
+    },
 )
 
 
@@ -2218,7 +2234,7 @@ NEXT_EVENT = Spec(
         "NEED_DATA": ("Wz.Multipart.Event.needData", _MP_EVENT),
         "SEARCH_EXTRA_LENGTH": ("(Wz.Multipart.searchExtra : Nat)", "Int"),
     },
-    locals={"event": _MP_EVENT},
+    locals={"#1": _MP_EVENT},  # (locals by position: #1 = event)
     calls={
         "self.preamble_re.search": Fn("preambleReSearch self_boundary", [py2lean.BYTES, INT], Opt(_MPM)),
         "BLANK_LINE_RE.search": Fn("blankLineReSearch", [py2lean.BYTES, INT], Opt(_MPM)),
@@ -2226,10 +2242,10 @@ NEXT_EVENT = Spec(
         "parse_options_header": Fn("parse_options", [STR], Tup(STR, py2lean.Dct(STR, STR)), raises=("ValueError",)),
         "bytes": Fn("id", [py2lean.BYTES], py2lean.BYTES),
     },
-    in_ops={"headers": Fn("headersHas headers", [STR], BOOL)},
+    in_ops={"#6": Fn("headersHas", [_HDRS, STR], BOOL)},  # #6 = headers
     patterns=[
-        (_src_matcher("match.group(1).startswith(b'--')"), Fn("mpClosing match_", [], BOOL)),
-        (_src_matcher("headers['content-disposition']"), Fn("headersGetD headers ['c', 'o', 'n', 't', 'e', 'n', 't', '-', 'd', 'i', 's', 'p', 'o', 's', 'i', 't', 'i', 'o', 'n']", [], STR)),
+        (_src_matcher("$m.group(1).startswith(b'--')", args=["m"]), Fn("mpClosing", [_MPM], BOOL)),
+        (_src_matcher("$h['content-disposition']", args=["h", "='content-disposition'"]), Fn("headersGetD", [_HDRS, STR], STR)),
         (_parse_data_call(True), _PD_FN),
         (_parse_data_call(False), _PD_FN),
         (_kw_ctor("Preamble", "data"), Fn("Wz.Multipart.Event.preamble", [py2lean.BYTES], _EVT)),
@@ -2237,7 +2253,7 @@ NEXT_EVENT = Spec(
         (_kw_ctor("File", "name", "filename", "headers"), Fn("Wz.Multipart.Event.file", [Opt(STR), STR, _HDRS], _EVT)),
         (_kw_ctor("Data", "data", "more_data"), Fn("Wz.Multipart.Event.data", [py2lean.BYTES, BOOL], _EVT)),
         (_kw_ctor("Epilogue", "data"), Fn("Wz.Multipart.Event.epilogue", [py2lean.BYTES], _EVT)),
-        (_isinstance_of("event", "NeedData"), Fn("isNeedData", [_EVT], BOOL)),
+        (_src_matcher("isinstance($e, NeedData)", args=["e"]), Fn("isNeedData", [_EVT], BOOL)),
     ],
     methods=_MPM_METHODS,
 )
@@ -2439,7 +2455,7 @@ MD_GETLIST_TYPED = Spec(
     static={"type is None": False},
     patterns=_MD_READS, calls={"list": Fn("id", [_LNU], _LNU)},
     callables={"Conv": Fn("call_type", [py2lean.Abs("Conv"), _NU], _TAU_T, raises=("ValueError", "TypeError"))},
-    locals={"result": "List τ"},
+    locals={"#2": "List τ"},  # (locals by position: #2 = result)
     module=_MDS, type_params=["ν", "τ", "Conv"], in_ops=_MD_COMMON["in_ops"],
 )
 MD_SETLIST = Spec(
@@ -2452,12 +2468,23 @@ MD_LISTVALUES = Spec(qualname="MultiDict.listvalues", name="md_listvalues", para
 MD_ITEMS = Spec(qualname="MultiDict.items", name="md_items", params=[("self.d", _MD_TY), ("multi", "Bool")], result="List (Str × ν)", raises=True, patterns=_MD_READS, **_MD_COMMON)
 
 _MD_STATE = ("self.d",)
+
+
+def _self_item(n):
+    """`self[K]` (read) -> [the object's dict `self.d` as a node, K]"""
+    import ast
+
+    if isinstance(n, ast.Subscript) and isinstance(n.ctx, ast.Load) and isinstance(n.value, ast.Name) and n.value.id == "self":
+        return [ast.parse("self.d", mode="eval").body, n.slice]
+    return None
+
+
 MD_SETDEFAULT = Spec(
     qualname="MultiDict.setdefault", name="md_setdefault", params=[("self.d", _MD_TY), ("key", "Str"), ("default", "ν")], state=["d"], result="ν", raises=True,
     # `self[key] = default` is `__setitem__`, `self[key]` is `__getitem__` (both translated above)
     effects={"self[key] = default": [("self.d", "md_setitem_(self.d, key, default)")]},
     calls={"md_setitem_": Fn("md_setitem", [_MD_T, STR, _NU], _MD_T)},
-    patterns=[(_src_matcher("self[key]"), Fn("md_getitem self_d key", [], _NU, raises=("BadRequestKeyError",)))],
+    patterns=[(_self_item, Fn("md_getitem", [_MD_T, STR], _NU, raises=("BadRequestKeyError",)))],
     **_MD_COMMON,
 )
 MD_SETLISTDEFAULT = Spec(
@@ -2491,7 +2518,7 @@ def md_pop_spec(with_default):
 MD_POP = md_pop_spec(False)
 MD_POP_DEFAULT = md_pop_spec(True)
 MD_POPLIST = Spec(qualname="MultiDict.poplist", name="md_poplist", params=[("self.d", _MD_TY), ("key", "Str")], state=["d"], result="List ν", patterns=_MD_POPS, **_MD_COMMON)
-MD_POPITEM = Spec(qualname="MultiDict.popitem", name="md_popitem", params=[("self.d", _MD_TY)], state=["d"], result="Str × ν", raises=True, patterns=_MD_POPS, locals={"item": "Str × List ν"}, **_MD_COMMON)
+MD_POPITEM = Spec(qualname="MultiDict.popitem", name="md_popitem", params=[("self.d", _MD_TY)], state=["d"], result="Str × ν", raises=True, patterns=_MD_POPS, locals={"#1": "Str × List ν"}, **_MD_COMMON)  # (locals by position: #1 = item)
 MD_POPITEMLIST = Spec(qualname="MultiDict.popitemlist", name="md_popitemlist", params=[("self.d", _MD_TY)], state=["d"], result="Str × List ν", raises=True, patterns=_MD_POPS, **_MD_COMMON)
 MD_UPDATE = Spec(
     qualname="MultiDict.update", name="md_update", params=[("self.d", _MD_TY), ("mapping", "List (Str × ν)")], state=["d"], result="Unit",
@@ -2683,6 +2710,281 @@ def gen_make_environ():
 
 
 # --------------------------------------------------------------------------
+# C12 / C04: Rule.suitable_for / build_compare_key / provides_defaults_for (routing/rules.py)
+
+_RULES = "routing/rules.py"
+_VAL = py2lean.Abs("V")
+RULE_SUITABLE_FOR = Spec(
+    module=_RULES,
+    qualname="Rule.suitable_for",
+    name="rule_suitable_for",
+    # values of URL variables are of a type parameter; their `==` (`1 == 1.0` …) is a parameter
+    type_params=["V"],
+    opaque=[("veq", "V → V → Bool")],
+    eq_fns={"V": "veq"},
+    params=[("self.methods", "Option (List Str)"), ("self.defaults", "Option (Dict Str V)"), ("self.arguments", "List Str"), ("values", "Dict Str V"), ("method", "Option Str")],
+    result="Bool",
+    raises=True,  # `values[key]` carries a KeyError arm (guarded by `key in values`: unreachable)
+)
+RULE_BUILD_COMPARE_KEY = Spec(
+    module=_RULES,
+    qualname="Rule.build_compare_key",
+    name="rule_build_compare_key",
+    type_params=["V"],
+    params=[("self.alias", "Bool"), ("self.arguments", "List Str"), ("self.defaults", "Option (Dict Str V)")],
+    result="Int × Int × Int",
+)
+RULE_PROVIDES_DEFAULTS_FOR = Spec(
+    module=_RULES,
+    qualname="Rule.provides_defaults_for",
+    name="rule_provides_defaults_for",
+    # `self.endpoint == rule.endpoint`, `self != rule` (`Rule.__eq__` compares `_trace`) and the set
+    # comparison `self.arguments == rule.arguments` are parameters
+    type_params=["V"],
+    opaque=[("same_endpoint", "Bool"), ("differs", "Bool"), ("same_arguments", "Bool")],
+    params=[("self.build_only", "Bool"), ("self.defaults", "Option (Dict Str V)"), ("rule", "Unit")],
+    result="Bool",
+    patterns=[
+        (_src_matcher("self.endpoint == rule.endpoint"), Fn("same_endpoint", [], BOOL)),
+        (_src_matcher("self != rule"), Fn("differs", [], BOOL)),
+        (_src_matcher("self.arguments == rule.arguments"), Fn("same_arguments", [], BOOL)),
+    ],
+)
+
+
+def _make_redirect_call(n):
+    """`self.make_redirect_url(P, query_args, domain_part=D)` -> [P, D]"""
+    import ast
+
+    if (isinstance(n, ast.Call) and py2lean.dotted(n.func) == "self.make_redirect_url" and len(n.args) == 2 and len(n.keywords) == 1
+            and n.keywords[0].arg == "domain_part" and isinstance(n.args[1], ast.Name) and n.args[1].id == "query_args"):
+        return [n.args[0], n.keywords[0].value]
+    return None
+
+
+_RABS = py2lean.Abs("R")
+_DV = py2lean.Dct(STR, _VAL)
+GET_DEFAULT_REDIRECT = Spec(
+    module="routing/map.py",
+    qualname="MapAdapter.get_default_redirect",
+    name="get_default_redirect",
+    # rules are values of a type parameter `R`; what is asked of them are parameters: identity with the
+    # matched rule, `provides_defaults_for(rule)`, `suitable_for(values, method)`, `defaults`,
+    # `build(values)`; `self.map._rules_by_endpoint[rule.endpoint]` is the list `candidates`;
+    # `make_redirect_url(path, query_args, domain_part=…)` is `redirect_url path domain_part`
+    type_params=["R", "V"],
+    opaque=[
+        ("candidates", "List R"), ("same_rule", "R → Bool"), ("provides", "R → Bool"),
+        ("suitable", "R → List (Pre.Str × V) → Pre.Str → Bool"), ("defaults_of", "R → List (Pre.Str × V)"),
+        ("build", "R → List (Pre.Str × V) → Except String (Pre.Str × Pre.Str)"), ("redirect_url", "Pre.Str → Pre.Str → Pre.Str"),
+    ],
+    params=[("self.map.redirect_defaults", "Bool"), ("rule", "R"), ("method", "Str"), ("values", "Dict Str V"), ("query_args", "Unit")],
+    result="Option Str",
+    raises=True,
+    calls={"dict_update_": Fn("Pre.dictUpdate", [_DV, _DV], _DV), "defaults_of": Fn("defaults_of", [_RABS], _DV)},
+    patterns=[
+        (_src_matcher("self.map._rules_by_endpoint[rule.endpoint]"), Fn("candidates", [], py2lean.Lst(_RABS))),
+        (_src_matcher("$r is rule", args=["r"]), Fn("same_rule", [_RABS], BOOL)),
+        (_src_matcher("$r.provides_defaults_for(rule)", args=["r"]), Fn("provides", [_RABS], BOOL)),
+        (_src_matcher("$r.suitable_for(values, method)", args=["r", "=values", "=method"]), Fn("suitable", [_RABS, _DV, STR], BOOL)),
+        (_src_matcher("$r.build(values)", args=["r", "=values"]), Fn("build", [_RABS, _DV], Tup(STR, STR), raises=("BuildError",))),
+        (_make_redirect_call, Fn("redirect_url", [STR, STR], STR)),
+    ],
+    effects={"values.update($r.defaults)": [("values", "dict_update_(values, defaults_of($r))")]},
+)
+
+
+@generator("PyFns_RoutingRule")
+def gen_routing_rule():
+    return emit_parts("RoutingRule", [[RULE_SUITABLE_FOR, RULE_BUILD_COMPARE_KEY, RULE_PROVIDES_DEFAULTS_FOR, GET_DEFAULT_REDIRECT]])
+
+
+# --------------------------------------------------------------------------
+# C13: the test client's `Cookie` (test.py): `_matches_request`, `_should_delete`, `_storage_key`
+
+_TEST = "test.py"
+COOKIE_MATCHES_REQUEST = Spec(
+    module=_TEST,
+    qualname="Cookie._matches_request",
+    name="cookie_matches_request",
+    params=[("self.domain", "Str"), ("self.origin_only", "Bool"), ("self.path", "Str"), ("server_name", "Str"), ("path", "Str")],
+    result="Bool",
+)
+COOKIE_SHOULD_DELETE = Spec(
+    module=_TEST,
+    qualname="Cookie._should_delete",
+    name="cookie_should_delete",
+    # `self.expires` (a datetime or None) through its timestamp
+    params=[("self.max_age", "Option Int"), ("self.expires", "Option Int")],
+    result="Bool",
+    decorators=["property"],
+    methods={("Int", "timestamp"): Fn("id", [INT], INT)},
+)
+COOKIE_STORAGE_KEY = Spec(
+    module=_TEST,
+    qualname="Cookie._storage_key",
+    name="cookie_storage_key",
+    params=[("self.domain", "Str"), ("self.path", "Str"), ("self.decoded_key", "Str")],
+    result="Str × Str × Str",
+    decorators=["property"],
+)
+
+
+@generator("PyFns_CookieJar")
+def gen_cookie_jar():
+    return emit_parts("CookieJar", [[COOKIE_MATCHES_REQUEST, COOKIE_SHOULD_DELETE, COOKIE_STORAGE_KEY]])
+
+
+# --------------------------------------------------------------------------
+# C16 / C06: the accessors behind the `cache_control_property` descriptors
+# (`_CacheControl._get_cache_value / _set_cache_value / _del_cache_value`, datastructures/cache_control.py):
+# one translation per property type (`bool`, `int`, `None` = str); the object is its dict of
+# `str | None` values, handed over as the attribute `self.d`
+
+_CC = "datastructures/cache_control.py"
+_CCD = "Dict Str (Option Str)"
+_CCD_T = py2lean.Dct(STR, Opt(STR))
+_CC_COMMON = dict(module=_CC, in_ops={"self": Fn("Pre.dictHas self_d", [STR], BOOL)})
+_CC_GETITEM = (_self_item, Fn("Pre.dictGetItem", [_CCD_T, STR], Opt(STR), raises=("KeyError",)))
+_CC_CALLS = {
+    "dict_set_": Fn("Pre.dictSet", [_CCD_T, STR, Opt(STR)], _CCD_T),
+    "dict_del_": Fn("Pre.dictDel", [_CCD_T, STR], _CCD_T),
+}
+_CC_EFFECTS = {
+    "self[key] = None": [("self.d", "dict_set_(self.d, key, None)")],
+    "self.pop(key, None)": [("self.d", "dict_del_(self.d, key)")],
+    "self[key] = str(value)": [("self.d", "dict_set_(self.d, key, str(value))")],
+    "del self[key]": [("self.d", "dict_del_(self.d, key)")],
+}
+
+
+def cc_get_spec(kind):
+    res = {"bool": "Bool", "int": "Option Int", "str": "Option Str"}[kind]
+    return Spec(
+        qualname="_CacheControl._get_cache_value", name="cc_get_" + kind,
+        params=[("self.d", _CCD), ("key", "Str"), ("empty", "Unit" if kind == "bool" else res), ("type", "Unit")],
+        result=res, raises=True, retype=["*"],
+        static={"type is bool": kind == "bool", "type is not None": kind == "int"},
+        # `type(value)` for `type` = int: `int(text)` through C06's hand model `pyInt`
+        patterns=[_CC_GETITEM, (_src_matcher("type($v)", args=["v"]), Fn("Wz.Http.pyInt", [STR], INT, raises=("ValueError",)))],
+        doc=f"`_CacheControl._get_cache_value(key, empty, type)` of src/werkzeug/datastructures/cache_control.py for `type` = {'bool' if kind == 'bool' else ('int' if kind == 'int' else 'None (a str property)')}, translated by tools/py2lean.py",
+        **_CC_COMMON,
+    )
+
+
+def cc_set_spec(kind):
+    vty = {"bool": "Bool", "int": "Option Int", "str": "Option Str"}[kind]
+    return Spec(
+        qualname="_CacheControl._set_cache_value", name="cc_set_" + kind,
+        params=[("self.d", _CCD), ("key", "Str"), ("value", vty), ("type", "Unit")],
+        state=["d"], result="Unit",
+        static={"type is bool": kind == "bool", "type is not None": kind == "int"},
+        effects=_CC_EFFECTS,
+        calls=_CC_CALLS,
+        patterns=[(_src_matcher("type($v)", args=["v"]), Fn("id", [INT], INT))],  # `int(n)` of an int
+        doc=f"`_CacheControl._set_cache_value(key, value, type)` of src/werkzeug/datastructures/cache_control.py for `type` = {'bool' if kind == 'bool' else ('int' if kind == 'int' else 'None (a str property)')} and a value of that type (or None), translated by tools/py2lean.py",
+        **_CC_COMMON,
+    )
+
+
+CC_GET_BOOL, CC_GET_INT, CC_GET_STR = cc_get_spec("bool"), cc_get_spec("int"), cc_get_spec("str")
+CC_SET_BOOL, CC_SET_INT, CC_SET_STR = cc_set_spec("bool"), cc_set_spec("int"), cc_set_spec("str")
+CC_DEL = Spec(qualname="_CacheControl._del_cache_value", name="cc_del", params=[("self.d", _CCD), ("key", "Str")], state=["d"], result="Unit", effects=_CC_EFFECTS, calls=_CC_CALLS, **_CC_COMMON)
+
+
+@generator("PyFns_CacheControl")
+def gen_cache_control():
+    return emit_parts("CacheControl", [[CC_GET_BOOL, CC_GET_INT, CC_GET_STR, CC_SET_BOOL, CC_SET_INT, CC_SET_STR, CC_DEL]], imports=("WzVerif.Model.Http",))
+
+
+# --------------------------------------------------------------------------
+# C11: IfRange.to_header (datastructures/range.py)
+
+IF_RANGE_TO_HEADER = Spec(
+    module="datastructures/range.py",
+    qualname="IfRange.to_header",
+    name="if_range_to_header",
+    # the date is an instant (an integer, as for `IfRange.__init__` / `parse_if_range_header`);
+    # `http.http_date` stays a parameter
+    opaque=[("http_date", "Int → Pre.Str")],
+    params=[("self.date", "Option Int"), ("self.etag", "Option Str")],
+    result="Str",
+    raises=True,
+    calls={
+        "http.http_date": Fn("http_date", [INT], STR),
+        "http.quote_etag": Fn("Gen.PyFns_Http.quote_etag", [STR, BOOL], STR, raises=("ValueError",), defaults_from=("http.py", "quote_etag")),
+    },
+)
+
+
+@generator("PyFns_IfRange")
+def gen_if_range():
+    return emit_parts("IfRange", [[IF_RANGE_TO_HEADER]], imports=("WzVerif.Gen.PyFns_Http",))
+
+
+# --------------------------------------------------------------------------
+# C10 / C02: small request-side glue: `MultiPartParser.get_part_charset` (formparser.py),
+# `Request.want_form_data_parsed` (wrappers/request.py)
+
+GET_PART_CHARSET = Spec(
+    module="formparser.py",
+    qualname="MultiPartParser.get_part_charset",
+    name="get_part_charset",
+    # `headers` is the list of (name, value) pairs (`Headers.get`: first value, names compared
+    # case-insensitively); `parse_options_header` stays a parameter
+    opaque=[("parse_options", "Pre.Str → Except String (Pre.Str × List (Pre.Str × Pre.Str))"), ("headers_get", "List (Pre.Str × Pre.Str) → Pre.Str → Option Pre.Str")],
+    params=[("headers", "List (Str × Str)")],
+    result="Str",
+    raises=True,
+    calls={"parse_options_header": Fn("parse_options", [STR], Tup(STR, py2lean.Dct(STR, STR)), raises=("ValueError",))},
+    patterns=[(_src_matcher("headers.get('content-type')"), Fn("headers_get headers ['c', 'o', 'n', 't', 'e', 'n', 't', '-', 't', 'y', 'p', 'e']", [], Opt(STR)))],
+)
+WANT_FORM_DATA_PARSED = Spec(
+    module="wrappers/request.py",
+    qualname="Request.want_form_data_parsed",
+    name="want_form_data_parsed",
+    params=[("self.environ", "Dict Str Str")],
+    result="Bool",
+    decorators=["property"],
+)
+
+
+@generator("PyFns_FormGlue")
+def gen_form_glue():
+    return emit_parts("FormGlue", [[GET_PART_CHARSET, WANT_FORM_DATA_PARSED]])
+
+
+# --------------------------------------------------------------------------
+# C15: test._make_base_url
+
+
+def _urlunsplit5_all(n):
+    """`urlunsplit((a, b, c, d, e))` -> [a, b, c, d, e]"""
+    import ast
+
+    if (isinstance(n, ast.Call) and isinstance(n.func, ast.Name) and n.func.id == "urlunsplit" and len(n.args) == 1 and not n.keywords
+            and isinstance(n.args[0], ast.Tuple) and len(n.args[0].elts) == 5):
+        return list(n.args[0].elts)
+    return None
+
+
+MAKE_BASE_URL = Spec(
+    module="test.py",
+    qualname="EnvironBuilder._make_base_url",
+    name="make_base_url",
+    opaque=[("urlunsplit", "Pre.Str → Pre.Str → Pre.Str → Pre.Str → Pre.Str → Pre.Str")],  # urllib
+    params=[("scheme", "Str"), ("host", "Str"), ("script_root", "Str")],
+    result="Str",
+    patterns=[(_urlunsplit5_all, Fn("urlunsplit", [STR, STR, STR, STR, STR], STR))],
+)
+
+
+@generator("PyFns_BaseUrl")
+def gen_base_url():
+    return emit_parts("BaseUrl", [[MAKE_BASE_URL]])
+
+
+# --------------------------------------------------------------------------
 # C04: number converters
 
 NUMBER_TO_PYTHON = Spec(
@@ -2809,7 +3111,7 @@ ACC_BEST_MATCH = Spec(
     opaque=[_N, ("qm1", "κ"), ("sm1", "σ")],
     params=[_SELF, ("matches", "List Str"), ("default", "Option Str")],
     result="Option Str",
-    locals={"best_quality": "κ", "best_specificity": "σ"},
+    locals={"#2": "κ", "#3": "σ"},  # (locals by position: #2 = best_quality, #3 = best_specificity)
     abs_lits={("κ", 0): "N.zero", ("κ", -1): "qm1"},
     literals={"(-1,)": ("sm1", "σ")},
     calls=dict(_ACC_CALLS, **{"self._best_single_match": Fn("best_single_match", [STR], Opt(Tup(STR, _K)), extra=("N", "self"))}),
@@ -2933,7 +3235,7 @@ ACC_TO_HEADER = Spec(
     qualname="Accept.to_header", name="to_header",
     # `f"{value};q={quality}"` prints the float: `qstr`; `quality != 1` through the order
     opaque=[_N, ("qone", "κ"), ("qstr", "κ → Pre.Str")],
-    params=[_SELF], result="Str", locals={"result": "List Str"},
+    params=[_SELF], result="Str", locals={"#1": "List Str"},  # (locals by position: #1 = result)
     abs_lits={("κ", 1): "qone"}, abs_str={"κ": "qstr"}, **_ACC,
 )
 ACC_GETITEM_STR = Spec(
@@ -3004,7 +3306,7 @@ HEADERS_DEL_KEY = Spec(
     name="headers_del_key",
     params=[("self._list", _HL), ("key", "Str")],
     state=["_list"],
-    locals={"new": _HL},
+    locals={"#1": _HL},  # (locals by position: #1 = new)
     result="Unit",
 )
 HEADERS_REMOVE = Spec(
